@@ -15,6 +15,12 @@ def real_line(doc):
         return f'err:{type(exc).__name__}@{where}'
 
 
+def model_line(prop, doc):
+    """The model's pagination of `doc` (one driver call)."""
+    from vlib import lean
+    return lean.run_driver(prop.driver, [pm.doc_line(doc)])[0]
+
+
 def add_cases(run, sec, count, gen=None, skip_errors=True):
     """`skip_errors`: an exception of the implementation is C02's business; C01/C03/C04 only count it."""
     docs.quiet()
